@@ -304,7 +304,7 @@ Lemma run_obs_strict_vrun l : forall s k s', run_obs_strict s l k = inl s' -> vr
 Proof.
   induction l as [|[o bs] l IH]; intros s k s'; cbn [run_obs_strict map fst vrun].
   - intro H; injection H as <-. reflexivity.
-  - destruct (vstep s o) as [s1|]; [|discriminate]. destruct (forallb (check_obs s1 o) bs); [|discriminate]. apply IH.
+  - destruct (vstep s o) as [s1|]; [|discriminate]. destruct (forallb (check_obs s s1 o) bs); [|discriminate]. apply IH.
 Qed.
 
 Theorem replay_strict_sound l q :
